@@ -50,15 +50,15 @@ CHECKS = {
          "Trusts go/ssa, VTA call graph, effects.go, the reviewed std write table and exception table (printed in evidence); std concurrency guarantees as documented.",
          "DESIGN.md §4 C17"),
  "C04": ("writer/reader layout agreement: symbolic byte-layout terms of encoders vs checked read sequences of decoders on SSA, widths from go/types constants; cache-discipline dominance; tag checks; batch walker structure",
-         "Sound static analysis of structural necessary conditions of round-tripping: for every wire structure the encoder's layout term and the decoder's checked read sequence on accepting paths match the structure's layout (fields, order, prefix kinds, widths by constant value) and decoded fields are assigned from the bytes read; every method that can change what Marshal reads resets the encoding cache on every success path; each request decoder requires its own type tag; the generic batch walkers map tags to the matching decoder, reject others, advance by the consumed length, and the response list uses per-type fixed lengths. Does not decide value-level round trips (e.g. commas in OriginInfo) or cryptobyte's own correctness.",
+         "Sound static analysis of structural necessary conditions of round-tripping: for every wire structure the encoder's layout term and the decoder's checked read sequence on accepting paths match the structure's layout (fields, order, prefix kinds, widths by constant value) and decoded fields are assigned from the bytes read; every method that can change what Marshal reads resets the encoding cache on every success path and nothing re-fills it before the return; every encoding cache is filled only by its own Marshal (never seeded with input bytes); each request decoder requires its own type tag; the generic batch walkers map tags to the matching decoder, reject others, advance by the consumed length, decode each element from within the declared list, and the response list uses per-type fixed lengths. Does not decide value-level round trips (e.g. commas in OriginInfo) or cryptobyte's own correctness.",
          "Trusts go/types, go/ssa, this checker's term and reader extractors, the layout table in c04.go (from the repository's struct comments and constants), cryptobyte.",
          "DESIGN.md §4 C04"),
  "C05": ("slot/index discipline on SSA: natural loops, dominance facts on slot stores, symbolic binding of lookup/key-match/evaluate arguments, emit-layout term with branch arms, error-discipline query",
-         "Sound static analysis of structural necessary conditions: one slot per request written only at the request's own index with either an empty value or the matched issuer's successful result; lookup by the request's type and last byte of the key id; a failing issuer neither ends the search nor the batch; present/absent status derived from slot emptiness with the same index; decoder mirrors the layout; the basic issuers' Evaluate succeed only behind their decode/evaluate/encode success edges with no error dropped. Does not decide that a present entry finalizes to a valid token (C01/C02).",
+         "Sound static analysis of structural necessary conditions: one slot per request written only at the request's own index with either an empty value or the matched issuer's successful result; lookup by the request's type and last byte of the key id; a failing issuer neither ends the search nor the batch; present/absent status derived from slot emptiness with the same index; decoder mirrors the layout; the constructor registers every issuer argument under its own type; the basic issuers' Evaluate succeed only behind their decode/evaluate/encode success edges with no error dropped. Does not decide that a present entry finalizes to a valid token (C01/C02).",
          "Trusts go/ssa dominators/loops, this checker's term evaluator; registered issuers behave like the repository's (non-empty response on success).",
          "DESIGN.md §4 C05"),
  "C18": ("symbolic ASN.1 layout terms (cryptobyte builder trees with OIDs by value), checked read sequences, return-term bindings on SSA",
-         "Sound static analysis of structural necessary conditions: MarshalTokenKeyPSSOID's builder term equals the prescribed RSASSA-PSS SPKI tree (SHA-384, MGF1-SHA-384, salt 48; OIDs by value, single initialisation); UnmarshalTokenKey performs the checked SEQ{SEQ,BITSTRING{SEQ{INT,INT}}} reads and returns the integers read; every issuer's TokenKeyID is a freshly computed SHA-256 of its serialized public key; type-1/2/5 requests carry the last byte of the id; the type-3 name key id is SHA-256 of the EncapKey encoding. Does not decide DER round trips for every modulus/exponent (encoding/asn1, cryptobyte).",
+         "Sound static analysis of structural necessary conditions: MarshalTokenKeyPSSOID's builder term equals the prescribed RSASSA-PSS SPKI tree (SHA-384, MGF1-SHA-384, salt 48; OIDs by value, single initialisation); UnmarshalTokenKey performs the checked SEQ{SEQ,BITSTRING{SEQ{INT,INT}}} reads and returns the integers read; every issuer's TokenKeyID is a freshly computed SHA-256 of its serialized public key; type-1/2/5 requests carry the last byte of the id; the type-3 name key id is SHA-256 of the EncapKey encoding; no key type's Marshal returns a cache seeded outside Marshal. Does not decide DER round trips for every modulus/exponent (encoding/asn1, cryptobyte).",
          "Trusts go/ssa, this checker's term and reader extractors, encoding/asn1 and cryptobyte as documented.",
          "DESIGN.md §4 C18"),
  "C19": ("bit-provenance abstract interpretation on SSA (each bit is 0, 1 or a named input bit; constant shifts, masks, ORs, width conversions exact) composed across AppendVarint and ConsumeVarint; guard-dominance facts; linear range proving (Fourier-Motzkin) of index/slice obligations and of the returned view (offset, length); may-write effect summaries",
@@ -70,7 +70,7 @@ CHECKS = {
          "Trusts go/ssa, this checker's term evaluator, range prover and affine residue domain; a padding size computed with branches (outside +,-,*,/,% of the length) is reported as undecided (failing).",
          "DESIGN.md §4 C20"),
  "C01": ("writer/reader layout agreement and parameter agreement between the two ends of each protocol: symbolic byte-layout terms, checked read sequences, widths from go/types constants, return-term bindings on SSA",
-         "Sound static analysis of structural necessary conditions of an honest run completing: request encoders and the decoders the issuers use agree (widths = length of what the client stores); each issuer's response layout is what its client splits and parses; tokens are type||nonce||SHA-256(challenge)||key id||authenticator with widths 48/256/256/64 and are decoded from state token input || finalize output; constructors bind the token input to the type constant, nonce, challenge digest and key id; both ends name the same suite, hash, info strings, labels and exported-secret length; the type-3 issuer's unpadding inverts the client's origin padding for every name length (rules shared with C20). Does not decide that the cryptography completes and verifies (dependencies' contract).",
+         "Sound static analysis of structural necessary conditions of an honest run completing: request encoders and the decoders the issuers use agree (widths = length of what the client stores); each issuer's response layout is what its client splits and parses; tokens are type||nonce||SHA-256(challenge)||key id||authenticator with widths 48/256/256/64 and are decoded from state token input || finalize output; constructors bind the token input to the type constant, nonce, challenge digest and key id; both ends name the same suite, hash, info strings, labels and exported-secret length; the type-3 issuer's unpadding inverts the client's origin padding for every name length (rules shared with C20); the QUIC-varint length prefixes of type 5 and batch messages are exact (rules shared with C19). Does not decide that the cryptography completes and verifies (dependencies' contract).",
          "Trusts go/types, go/ssa, this checker's term and reader extractors, the layout table (c04.go), circl/go-hpke/crypto as documented.",
          "DESIGN.md §4 C01"),
  "C11": ("call-graph reachability to entropy sources (VTA, Once.Do resolved at the site, std bodies as leaves) with positive control; parameter liveness by symbolic binding; mutable-global query over may-write summaries",
